@@ -24,6 +24,7 @@ EXPLANATION = (
     "does (canonicalise ban literals, regex search on the record's SMILES); (D4) the text appended by the imputer is the "
     "solution's smiles repeated Ratio times.  Completeness and arithmetic of the depth-first search over all vectors are NOT decided."
     ' The ban list may be computed from literals at import time: it is constant-folded (comprehensions, itertools.combinations*, str.format) before D3 is decided.'
+    ' (D7) the both-side relabelling returns the given vector or its complete negation.'
 )
 ASSUMPTIONS = [
     "RDKit parses the table literals as the pipeline's own RDKit does (same interpreter)",
